@@ -51,6 +51,11 @@ def items(tier):
         if kind != "port" and rule != "bundle_port" and len(it[2]) <= 2 and it[3] == "before":
             out.append((rule, kind, it[2], it[3], n, None, "deep"))
             n += 1
+    # the adversaries are stored a second time under their own names (`m.add(m.x)`, `m.x = m.x`) before the design is elaborated
+    for it in list(out):
+        if len(it) == 5 and it[1] in ("sig", "port", "inst", "array", "binst") and len(it[2]) <= 2 and it[3] == "before":
+            out.append((it[0], it[1], it[2], it[3], n, None, "restored"))
+            n += 1
     # at the length limit: the generated name is MAXLEN - room characters long and the designer owns every candidate up to
     # the limit (or all but the longest)
     for rule in RULES:
@@ -81,6 +86,7 @@ def design(desc):
     base, gw = RULES[rule]
     stretch = None
     deep = len(desc) > 6 and desc[6] == "deep"
+    restored = len(desc) > 6 and desc[6] == "restored"
     if len(desc) > 5 and desc[5] is not None:
         old = TRIG_OBJ[rule]
         stretch = (old, old + "w" * (MAXLEN - desc[5] - len(base)))
@@ -144,6 +150,8 @@ def design(desc):
             adv += [("inst", f"zz{k}", ("mod", "Inner"), [("a", nc(f"adv{k}", nm)), ("b", sig("v"))])]
     decls = (adv + trig) if order == "before" else (trig + adv)
     mods["Top"] = {"name": "Top", "style": ["proc", "class"][n % 2], "decls": decls}
+    if restored:
+        return f"F8/{rule}/{kind}/restored", {"bundles": BUND, "exts": exts, "modules": mods, "top": "Top", "restore": [("Top", base + suf) for suf in suffixes]}
     if deep:
         mods["Outer"] = {"name": "Outer", "style": "proc", "decls": [("sig", "os", 1), probe("p_os", "os", 1, 40), ("inst", "t", ("mod", "Top"), [])]}
         return f"F8/{rule}/{kind}/deep", {"bundles": BUND, "exts": exts, "modules": mods, "top": "Outer"}
